@@ -32,7 +32,7 @@ RULE = (
     "centring on/off, intercept (off only without fixed effects), states_for_separate_model with and without "
     "reporting rows; fit = filter_to_active_features(x[:n_fit]) and hold = generate_holdout_data(x[n_fit:]) are "
     "compared with a reference design matrix computed from the case. e2e: nonparametric and bootstrap elections "
-    "with fixed effects run twice, the second time with the nonreporting units moved to other baseline rows. "
+    "with fixed effects run twice, the second time with the nonreporting units moved to other baseline rows; the matrices the models really use are observed (conformal: every fit matrix; bootstrap: the fit and the prediction matrix handed to the strata step) and checked against the clauses (no constant dummy, one absorbed level per effect, indicator / zeros / 1/(k+1) rows). "
     "Non-trivial: >=1 fixed effect with a level seen only outside the fitting rows (e2e: a completed pair in which "
     ">=2 nonreporting units changed rows). Distinct = sorted per-effect (|fitted levels|, #unseen levels, blocks "
     "where the unseen levels occur) (e2e: estimator, the same profile, number of moved units)."
@@ -67,7 +67,7 @@ MASKS = [1, 2, 4, 3, 7, 5, 6, 1, 2, 7]
 
 def parts(tier):
     if tier == "quick":
-        return [{"name": "component", "n": 30000}, {"name": "e2e", "n": 100}]
+        return [{"name": "component", "n": 30000}, {"name": "e2e", "n": 160}]
     return [{"name": "component", "n": 400000}, {"name": "e2e", "n": 2000}]
 
 
@@ -566,6 +566,60 @@ def compared_columns(pi, table):
     return [c for c in table.columns if c.startswith(pref)]
 
 
+def check_bootstrap_matrices(base, seen, case, ctx):
+    """The statement's clauses on the matrices the bootstrap model really used: same columns for fitting and for
+    prediction, intercept first, no constant dummy on the fitting rows, a seen level gets its indicator (the absorbed
+    one all zeros), an unseen level 1/(k+1) on each of the k fitted levels of its effect."""
+    cols, xtr, xte = seen["columns"], seen["x_train"], seen["x_test"]
+    viol = lambda kind, detail: ctx.violation(kind, detail, case, sig=kind + ":bootstrap")  # noqa: E731
+    if xtr.shape != (len(seen["rep_ids"]), len(cols)) or xte.shape != (len(seen["non_ids"]), len(cols)):
+        viol("matrices_not_aligned", f"fit matrix {xtr.shape}, prediction matrix {xte.shape}, {len(cols)} active features, {len(seen['rep_ids'])} / {len(seen['non_ids'])} units")
+        return False
+    if not cols or cols[0] != "intercept" or not (xtr[:, 0] == 1).all() or not (xte[:, 0] == 1).all():
+        viol("intercept_not_first", f"columns {cols[:3]}")
+        return False
+    recs = {r["id"]: r for r in ref.categorise(base)}
+    fe = base["req"]["fe"]
+    names = list(fe) if isinstance(fe, list) else list(fe.keys())
+    n_unseen = 0
+    for name in names:
+        key = ref.COL_OF_KEY.get(name)
+        if key is None:
+            continue
+        param = None if isinstance(fe, list) else fe[name]
+        pool = (lambda v: v) if selects_all(param) else (lambda v, p=param: v if v in p else "other")  # noqa: E731
+        idx = [i for i, c in enumerate(cols) if c.startswith(name + "_")]
+        fitted = {cols[i][len(name) + 1:]: i for i in idx}
+        for i in idx:
+            if len(np.unique(xtr[:, i])) <= 1:
+                viol("constant_dummy_on_fitting_rows", f"bootstrap fit matrix: column {cols[i]} is constant on the {len(xtr)} fitting rows")
+                return False
+        seen_levels = {str(pool(recs[u][key])) for u in seen["rep_ids"] if u in recs}
+        if len(seen_levels - set(fitted)) != 1:
+            viol("absorbed_levels", f"effect {name}: levels on the fitting rows {sorted(seen_levels)}, fitted dummies {sorted(fitted)} (exactly one observed level must be absorbed by the intercept)")
+            return False
+        k = len(idx)
+        for row, u in enumerate(seen["non_ids"]):
+            if u not in recs:
+                continue
+            lv = str(pool(recs[u][key]))
+            got = xte[row, idx]
+            if lv in fitted:
+                want = np.array([1.0 if i == fitted[lv] else 0.0 for i in idx])
+            elif lv in seen_levels:
+                want = np.zeros(k)
+            else:
+                want = np.full(k, 1.0 / (k + 1))
+                n_unseen += 1
+            if not np.allclose(got, want, rtol=0, atol=1e-12):
+                viol("holdout_level_encoding", f"bootstrap prediction matrix, unit {u}, effect {name}, level {lv!r} ({'fitted' if lv in fitted else 'absorbed' if lv in seen_levels else 'not seen on the fitting rows'}): columns {[cols[i] for i in idx]} = {got.tolist()}, expected {want.tolist()}")
+                return False
+    ctx.label("e2e_bootstrap_matrices_observed")
+    if n_unseen:
+        ctx.label("e2e_bootstrap_unseen_level_rows", n_unseen)
+    return True
+
+
 def check_e2e(case, ctx):
     ctx.evaluated()
     req = case["req"]
@@ -602,7 +656,37 @@ def check_e2e(case, ctx):
         finally:
             CEM.ConformalElectionModel.fit_model = orig_fit
     else:
-        r1 = run_case(base, keep_client=False)
+        # observe the matrices the bootstrap model fits on and predicts from (they reach _estimate_strata_dist as
+        # plain arrays; the column names are the featurizer's active features, the rows the frames' unit ids)
+        import elexmodel.models.BootstrapElectionModel as BEM
+
+        seen = {}
+        orig_cbe = BEM.BootstrapElectionModel.compute_bootstrap_errors
+        orig_esd = BEM.BootstrapElectionModel._estimate_strata_dist
+
+        def rec_cbe(self, reporting_units, nonreporting_units, unexpected_units):
+            seen.setdefault("rep_ids", list(reporting_units["geographic_unit_fips"]))
+            seen.setdefault("non_ids", list(nonreporting_units["geographic_unit_fips"]))
+            try:
+                return orig_cbe(self, reporting_units, nonreporting_units, unexpected_units)
+            finally:
+                seen.setdefault("columns", list(self.featurizer.active_features))
+
+        def rec_esd(self, x_train, x_train_strata, x_test, x_test_strata, *a, **k):
+            seen.setdefault("x_train", np.array(x_train, dtype=float))
+            seen.setdefault("x_test", np.array(x_test, dtype=float))
+            return orig_esd(self, x_train, x_train_strata, x_test, x_test_strata, *a, **k)
+
+        BEM.BootstrapElectionModel.compute_bootstrap_errors = rec_cbe
+        BEM.BootstrapElectionModel._estimate_strata_dist = rec_esd
+        try:
+            r1 = run_case(base, keep_client=False)
+        finally:
+            BEM.BootstrapElectionModel.compute_bootstrap_errors = orig_cbe
+            BEM.BootstrapElectionModel._estimate_strata_dist = orig_esd
+        if r1.ok and {"x_train", "x_test", "columns", "rep_ids", "non_ids"} <= set(seen):
+            if not check_bootstrap_matrices(base, seen, case, ctx):
+                return
     for f in fits:
         if f["constant_dummies"]:
             ctx.violation(
